@@ -38,8 +38,9 @@ NoOverflow == /\ (x - x0) * U <= MaxU64 /\ R <= U
 Bounds == F <= Hi /\ F >= Lo - 1
 Accurate == U * Abs(F * D - Exact) <= (Abs(y1 - y0) + 2 * U) * D
 AtDots == (x = x0 => F = y0) /\ (x = x1 => F = y1)
-\* the four clauses above in one obligation (used by the quick tier: one solver run)
-AllClauses == NoOverflow /\ Bounds /\ Accurate /\ AtDots
+\* the four clauses above (and the split comparison, here on x+2 so that values beyond maxVal occur) in one obligation
+\* (used by the quick tier: one solver run)
+AllClauses == NoOverflow /\ Bounds /\ Accurate /\ AtDots /\ (LeMaxVal(x + 2) <=> x + 2 <= MaxVal)
 \* the way PieceFunc.tla writes "c <= MaxVal" (x ranges over 0..MaxVal+2 from InitOver)
 LimitForm == LeMaxVal(x) <=> x <= MaxVal
 \* must be refuted: the bounds of the statement are tight
